@@ -46,7 +46,7 @@ func (w *world) settle() (snapshot, bool) {
 	same := 0
 
 	for n := 0; ; n++ {
-		quiet := brokersQuiet()
+		quiet := w.brokersQuiet()
 		got := w.snap()
 
 		if n > 0 && quiet && len(diff(got, last)) == 0 {
